@@ -1,8 +1,8 @@
 """C07 — the front end is total: any text yields diagnostics, never a crash or hang."""
-from harness import frontfuzz, chk, lexer, ifdefs
+from harness import frontfuzz, chk, lexer, ifdefs, parser
 
 ID = "C07"
-MODULES = ["HeraProofs.Props.C07", "HeraProofs.Props.C10", "HeraProofs.Props.C16", "HeraProofs.Props.C09", "HeraProofs.Props.C07b"]
+MODULES = ["HeraProofs.Props.C07", "HeraProofs.Props.C10", "HeraProofs.Props.C16", "HeraProofs.Props.C09", "HeraProofs.Props.C07b", "HeraProofs.Props.C07c"]
 GENERATED_DEPS = []
 EXPLANATION = ("Theorems over the lexer model (every loop termination-checked by Lean; corresponded with the real Lexer token by "
                "token incl. line and column on valid, damaged and random ASCII texts): C07_token_progress (every token but EOF "
@@ -10,12 +10,19 @@ EXPLANATION = ("Theorems over the lexer model (every loop termination-checked by
                "EOF and has at most one token per character plus one: the lexer cannot loop, stall or run past the end), with "
                "skip_le, readBody_rest_lt, readCharBody_rest_lt, tokenAt_eof, lexGo_ends. Further total, corresponded models: "
                "the string-literal reader (C10_read_range), conditional compilation (C16_ifdef), the type checker over arbitrary "
-               "operation lists with operands of any kind and count (C09_op_iff). The rest of the pipeline - recursive-descent "
-               "parser with includes, preprocessor, all four modes - is decided by the watchdog fuzz stream on the real code: "
+               "operation lists with operands of any kind and count (C09_op_iff). The recursive-descent parser (C07c, Model/Parser.lean: "
+               "match_program, match_op, match_optional_arglist, match_value, match_int, match_include up to the file access, "
+               "handle_cpp_boilerplate, expect, skip_until with all their error recovery) is modelled over the lexer model's "
+               "tokens, total by construction (its loops recurse only on a strictly shorter token list, otherwise a `stuck` marker "
+               "is returned), corresponded with the real parser on operations, error messages and warnings with line and column; "
+               "C07_parser_never_stuck / C07_parser_total prove that the marker is unreachable: for every token list each "
+               "iteration of either loop consumes a token (argStep_ok, argLoop_ok, progStep_ok, progLoop_ok). What remains - reading "
+               "included files, the preprocessor around it, all four modes - is decided by the watchdog fuzz stream on the real code: "
                "random ASCII incl. NUL and control characters, every operation name with arbitrary operands, damaged valid "
                "programs, hostile includes, and all ordered pairs of 46 statements sharing symbols.")
-ASSUMPTIONS = ["the recursive-descent parser (match_op / match_value / match_include, error recovery) is not modelled in Lean: its "
-               "totality is decided by the fuzz stream on the real code (a sampled, not a proved, for-all)",
+ASSUMPTIONS = ["what an #include contributes (reading the file, recursion through the included text, cycle detection) is outside the "
+               "parser model: the model records the include and the harness runs includes that fail; include graphs are C16's "
+               "stream; the end-to-end totality with real files is the fuzz stream's (a sampled, not a proved, for-all)",
                "the lexer model covers ASCII texts (hera rejects other files); str.isalpha / isdigit / isspace modelled for ASCII",
                "a hang is a front-end call that does not return within 8 s on inputs of at most a few hundred characters"]
 
@@ -26,15 +33,19 @@ def run(ctx):
     lx = lexer.check(seed + 3, 300000 if thorough else 6000)
     r["violations"] += lx["violations"]
     r["disagreements"] += lx["disagreements"]
+    ps = parser.check(seed + 7, 100000 if thorough else 4000)
+    r["violations"] += ps["violations"]
+    r["disagreements"] += ps["disagreements"]
     # conditional compilation on rendered, mutated and unbalanced directive sequences: an exception there is C07's business
     ifd = ifdefs.check(seed + 11, 60000 if thorough else 3000)
     r["violations"] += [v for v in ifd["violations"] if v.get("property") == "C07"]
     r["evaluations"] += ifd["evaluations"]
     grid, items = chk.check_grid(False, seed)
     r["violations"] += [v for v in grid["violations"] if v.get("property") == "C07"]
-    r["evaluations"] += len(items) + lx["evaluations"]
-    r["distinct_nontrivial"] = r["distinct"] + lx["distinct"] + len({it["text"] + it.get("mode", "") for it in items})
-    r["streams"] = {"frontfuzz": r["evaluations"] - len(items) - lx["evaluations"], "grid": len(items), "lexer": lx["evaluations"]}
+    r["evaluations"] += len(items) + lx["evaluations"] + ps["evaluations"]
+    r["distinct_nontrivial"] = r["distinct"] + lx["distinct"] + ps["distinct"] + len({it["text"] + it.get("mode", "") for it in items})
+    r["streams"] = {"frontfuzz": r["evaluations"] - len(items) - lx["evaluations"] - ps["evaluations"], "grid": len(items), "lexer": lx["evaluations"],
+                    "parser": ps["evaluations"]}
     r["rule"] = ("texts: random ASCII 0..127, punctuation soup, control characters; every operation name x operands of arbitrary kind and "
                  "count; generated valid programs with 0-4 edits (dangerous fragment inserted, deletion, truncation, cut) and "
                  "#include lines naming missing / directory / NUL / binary / self-including files; x 4 modes")
